@@ -60,8 +60,9 @@ func (f *faultCtl) mode(name string) int {
 	}
 	// 0 ok, 1 fail before the first byte, 2 fail after half; 3..5: the same failures with other error identities
 	// (io.EOF before the first byte, io.EOF after half, wrapped io.EOF after half) — an error must count as a
-	// failure whatever its identity
-	v := f.c.Choose("producer:"+name, 6)
+	// failure whatever its identity; 6..8: errors whose text looks like an SMTP reply (after half "404 …", after half
+	// "550 …", before the first byte "451 …")
+	v := f.c.Choose("producer:"+name, 9)
 	f.picked[name] = v
 	return v
 }
@@ -85,13 +86,16 @@ func (f *faultCtl) signFault(msg string) bool {
 func (f *faultCtl) producer(name string, content []byte) func(io.Writer) (int64, error) {
 	return func(w io.Writer) (int64, error) {
 		switch md := f.mode(name); md {
-		case 1, 3:
+		case 1, 3, 8:
 			f.fired[name] = true
 			if md == 3 {
 				return 0, io.EOF
 			}
+			if md == 8 {
+				return 0, errors.New("451 4.3.0 content source temporarily unavailable")
+			}
 			return 0, errProducer
-		case 2, 4, 5:
+		case 2, 4, 5, 6, 7:
 			f.fired[name] = true
 			n, _ := w.Write(content[:len(content)/2])
 			switch md {
@@ -99,6 +103,10 @@ func (f *faultCtl) producer(name string, content []byte) func(io.Writer) (int64,
 				return int64(n), io.EOF
 			case 5:
 				return int64(n), fmt.Errorf("source ended early: %w", io.EOF)
+			case 6:
+				return int64(n), errors.New("404 Not Found: content source")
+			case 7:
+				return int64(n), errors.New("550 5.7.1 content source refused")
 			}
 			return int64(n), errProducer
 		}
@@ -499,7 +507,7 @@ func clipb(b []byte, n int) string {
 func c03Describe(label string, pick int) string {
 	switch {
 	case strings.HasPrefix(label, "producer:"):
-		return label + "=" + []string{"ok", "fail-before-first-byte", "fail-after-half", "fail-before-first-byte(io.EOF)", "fail-after-half(io.EOF)", "fail-after-half(wrapped io.EOF)"}[pick]
+		return label + "=" + []string{"ok", "fail-before-first-byte", "fail-after-half", "fail-before-first-byte(io.EOF)", "fail-after-half(io.EOF)", "fail-after-half(wrapped io.EOF)", "fail-after-half(error text '404 …')", "fail-after-half(error text '550 …')", "fail-before-first-byte(error text '451 …')"}[pick]
 	case strings.HasPrefix(label, "signing:"):
 		return label + "=fails"
 	case strings.HasPrefix(label, "transport#"):
@@ -516,7 +524,7 @@ func init() {
 	vf.Register(&vf.Check{
 		ID: "C03", Title: "only complete messages are committed; IsDelivered tells the truth",
 		Run: func(r *vf.Run) {
-			r.SetRule("batches of 1..3 messages over shapes {single, alternative, body+attachment, body+embed, body+attachment from a reader, body+embed from a read-seeker}; (history) the same Msg objects sent again over a fault-free connection, unchanged or after all their recipients were removed (second attempt refused before MAIL FROM); choice points: every content producer {ok, fail before first byte, fail after half — with a generic error, with io.EOF, with a wrapped io.EOF}, S/MIME signing of single-part messages {off, fails at render time before the first byte}, transport failure in each DATA phase at {never, first content byte, inside headers, inside a part body, just before the end, inside the end-of-data marker, inside the content of the last part}, server reply at NOOP/MAIL/RCPT/DATA/RSET {ok,4yz,5yz,drop,multi-line ok,421+disconnect} and at end-of-data {250,4yz,5yz,drop,251,multi-line 250}; all vectors with <= k deviations; oracle: server commit log vs. reference rendering of the same Msg objects; distinct by (configuration, choice vector)")
+			r.SetRule("batches of 1..3 messages over shapes {single, alternative, body+attachment, body+embed, body+attachment from a reader, body+embed from a read-seeker}; (history) the same Msg objects sent again over a fault-free connection, unchanged or after all their recipients were removed (second attempt refused before MAIL FROM); choice points: every content producer {ok, fail before first byte, fail after half — with a generic error, with io.EOF, with a wrapped io.EOF, with an error whose text reads like a 4yz / 5yz reply}, S/MIME signing of single-part messages {off, fails at render time before the first byte}, transport failure in each DATA phase at {never, first content byte, inside headers, inside a part body, just before the end, inside the end-of-data marker, inside the content of the last part}, server reply at NOOP/MAIL/RCPT/DATA/RSET {ok,4yz,5yz,drop,multi-line ok,421+disconnect} and at end-of-data {250,4yz,5yz,drop,251,multi-line 250}; all vectors with <= k deviations; oracle: server commit log vs. reference rendering of the same Msg objects; distinct by (configuration, choice vector)")
 			r.Assume("the reference rendering is WriteTo on the same Msg after Send with faults disabled (default file encodings; repeatability itself is C11)",
 				"the transport's final CRLF after content that does not end in CRLF is not part of the message")
 			type job struct {
